@@ -113,7 +113,7 @@ async def check(case, rec):
         raise Violation("C19:" + ("raised:loop-recovery" if res.shape.kind == "loop" else view.raised_kind()), f"{res.raised_msg}; plan {plan}; versions {res.versions}")
     ref = shape.reference_output()
     if res.output != ref or res.output != base["output"]:
-        raise Violation("C19:" + K.output_kind(res.output, ref), f"{res.output!r} != {ref!r}; plan {plan}")
+        raise Violation("C19:" + view.output_kind(res.output, ref), f"{res.output!r} != {ref!r}; plan {plan}")
     # (iv) nothing outlives the run
     if res.pending:
         raise Violation("C19:pending-tasks", f"tasks pending after the run: {res.pending[:10]}")
